@@ -194,8 +194,9 @@ def build(p):
             return eval_e(ret, args, (), env)
 
         n = _arity(p)
-        named = {0: lambda: body(), 1: lambda a0: body(a0), 2: lambda a0, a1: body(a0, a1),
-                 3: lambda a0, a1, a2: body(a0, a1, a2)}.get(n)
+        # named leading parameters (so that keyword arguments work); extra positional arguments are accepted
+        named = {0: lambda *r: body(*r), 1: lambda a0, *r: body(a0, *r), 2: lambda a0, a1, *r: body(a0, a1, *r),
+                 3: lambda a0, a1, a2, *r: body(a0, a1, a2, *r)}.get(n)
         return genjax.gen(named if named is not None else body)
     sub = [build(q) for q in p["subs"]]
     if k == "closure":
@@ -369,6 +370,8 @@ def build_sel(t):
     comp = lambda c: Ellipsis if c == "*" else c
     if k == "at":
         p = tuple(comp(c) for c in t["p"])
+        if not p:
+            return Selection.all()            # every address has the empty prefix
         return Selection.at[p if len(p) > 1 else p[0]]
     if k == "lf":
         return Selection.leaf().extend(*[comp(c) for c in t["p"]])
